@@ -1242,23 +1242,38 @@ func (e *Engine) doAppend(st *State, in ssa.Instruction, s, t Val, mode int) Val
 					Store(st.shifted(base, s.L[1], l.Sort), s.L[2], tv.L[i]))
 			}
 		} else {
-			// several elements: unconstrained contents, except that appending nothing changes nothing
-			contents = Ite(Eq(addLen, I(0)), Select(h, s.L[0]), st.ctx.freshConst("hv!append", arrSort(l.Sort)))
+			// several elements: a new content function c that agrees with the old slice on its first len(s)
+			// positions, with the appended slice on the next addLen positions and, when the append happens in
+			// place, with the old backing array everywhere else; appending nothing changes nothing
+			c := st.ctx.freshConst("hv!append", arrSort(l.Sort))
+			base := Select(h, s.L[0])
+			q := Term{sym(st.ctx.freshName("q!apn")), SInt}
+			st.assume(Term{fmt.Sprintf("(forall ((%s Int)) %s)", q.S, Implies(And(Le(I(0), q), Lt(q, s.L[2])), Eq(Select(c, Add(off, q)), Select(base, Add(s.L[1], q)))).S), SBool})
+			if !isString(t.T) {
+				tbase := Select(h, t.L[0])
+				q2 := Term{sym(st.ctx.freshName("q!apt")), SInt}
+				st.assume(Term{fmt.Sprintf("(forall ((%s Int)) %s)", q2.S, Implies(And(Le(I(0), q2), Lt(q2, addLen)), Eq(Select(c, Add(off, Add(s.L[2], q2))), Select(tbase, Add(t.L[1], q2)))).S), SBool})
+			}
+			q3 := Term{sym(st.ctx.freshName("q!apf")), SInt}
+			st.assume(Implies(inPlace, Term{fmt.Sprintf("(forall ((%s Int)) %s)", q3.S, Implies(Or(Lt(q3, Add(s.L[1], s.L[2])), Ge(q3, Add(s.L[1], newLen))), Eq(Select(c, q3), Select(base, q3))).S), SBool}))
+			contents = Ite(Eq(addLen, I(0)), Select(h, s.L[0]), c)
 		}
 		st.setHeap(key, Store(h, arr, contents))
 	}
 	res := Val{T: s.T, L: []Term{arr, off, newLen, cp}}
-	if els := leavesOf(sl.Elem()); single && len(els) == 1 {
+	if els := leavesOf(sl.Elem()); single {
 		// stated directly, so that quantified invariants over the slice need not be pushed through
 		// the reallocation: the first len(s) elements are unchanged and the new one is at index len(s)
-		key := elemKey(sl.Elem(), els[0].Path)
-		hNew := st.heapTerm(key, els[0].Sort, true)
-		hOld, ok := oldElemHeap[key]
-		if ok {
-			q := Term{sym(st.ctx.freshName("q!app")), SInt}
-			body := Eq(Select(Select(hNew, arr), Add(off, q)), Select(Select(hOld, s.L[0]), Add(s.L[1], q)))
-			st.assume(Term{fmt.Sprintf("(forall ((%s Int)) %s)", q.S, Implies(And(Le(I(0), q), Lt(q, s.L[2])), body).S), SBool})
-			st.assume(Eq(Select(Select(hNew, arr), Add(off, s.L[2])), tv.L[0]))
+		for li, el := range els {
+			key := elemKey(sl.Elem(), el.Path)
+			hNew := st.heapTerm(key, el.Sort, true)
+			hOld, ok := oldElemHeap[key]
+			if ok {
+				q := Term{sym(st.ctx.freshName("q!app")), SInt}
+				body := Eq(Select(Select(hNew, arr), Add(off, q)), Select(Select(hOld, s.L[0]), Add(s.L[1], q)))
+				st.assume(Term{fmt.Sprintf("(forall ((%s Int)) %s)", q.S, Implies(And(Le(I(0), q), Lt(q, s.L[2])), body).S), SBool})
+				st.assume(Eq(Select(Select(hNew, arr), Add(off, s.L[2])), tv.L[li]))
+			}
 		}
 	}
 	if contentTracked {
@@ -1344,8 +1359,10 @@ func (e *Engine) doRecv(st *State, in *ssa.UnOp, ch Val) {
 	if in.CommaOk {
 		ok := st.ctx.freshConst("recv!ok", SBool)
 		st.fr.regs[in] = Val{T: in.Type(), Tup: []Val{v, boolVal(ok)}}
+		st.recvHooks(in, subj, v, ok)
 	} else {
 		st.set(in, v)
+		st.recvHooks(in, subj, v, TTrue)
 	}
 }
 
@@ -1356,7 +1373,20 @@ func (st *State) recvHooks(in ssa.Instruction, subj string, v Val, ok Term) {
 	if c == nil || in.Parent() != st.fr.fn {
 		return
 	}
-	for _, h := range c.Hooks["recv:"+subj] {
+	for i, h := range c.Hooks["recv:"+subj] {
+		if h.Kind == "assert" {
+			// a condition on the state in which this thread waits on the channel (e.g. no lock held)
+			env := st.specEnv("hook")
+			env.scope = in.Block()
+			name := st.ctx.oblName(in, "recv") + fmt.Sprintf("/assert%d", i+1)
+			tm, err := st.evalClause(env, h.Cl)
+			if err != nil {
+				st.bindFail(name, err)
+				continue
+			}
+			st.obligeNamed(name, "assert", st.posOf(in), tm, "when receiving from "+subj+": "+h.Cl.Text)
+			continue
+		}
 		if h.Kind != "assume" {
 			continue
 		}
